@@ -11,6 +11,8 @@
 use crate::core::*;
 use crate::l1::{self, BatchSpec, Replay};
 use crate::l2;
+#[cfg(feature = "l3")]
+use crate::l3;
 use serde::{Deserialize, Serialize};
 use serde_json::json;
 use std::collections::BTreeMap;
@@ -37,6 +39,9 @@ fn l1o(name: &'static str, quick: u64, thorough: u64, over: Vec<(&'static str, i
 fn l2(name: &'static str, quick: u64, thorough: u64) -> PlanItem {
     PlanItem { layer: "L2", name, quick, thorough, over: vec![] }
 }
+fn l3(name: &'static str, quick: u64, thorough: u64) -> PlanItem {
+    PlanItem { layer: "L3", name, quick, thorough, over: vec![] }
+}
 fn l2o(name: &'static str, quick: u64, thorough: u64, over: Vec<(&'static str, i64)>) -> PlanItem {
     PlanItem { layer: "L2", name, quick, thorough, over }
 }
@@ -57,14 +62,23 @@ pub fn plan(prop: &str) -> Vec<PlanItem> {
                 for s in ["S-mutex", "S-sem", "S-chan", "S-chan-shared", "S-event", "S-oneshot", "S-state", "S-timer"] {
                     v.push(l2o(s, 60_000, 1_500_000, vec![("p_kill", 5), ("max_kills", 2)]));
                 }
+                for s in ["T-mutex", "T-sem", "T-chan", "T-chan-shared", "T-event", "T-oneshot", "T-state", "T-timer"] {
+                    v.push(l3(s, 15_000, 400_000));
+                }
             }
             v
         }
-        "C02" | "C03" => vec![l1("mutex", 400_000, 12_000_000), l2("S-mutex", 300_000, 8_000_000)],
+        "C02" | "C03" => vec![l1("mutex", 400_000, 12_000_000), l2("S-mutex", 300_000, 8_000_000), l3("T-mutex", 60_000, 3_000_000)],
         "C04" => vec![l1o("mutex", 300_000, 8_000_000, vec![("fair", 1)]), l2o("S-mutex", 200_000, 5_000_000, vec![("fair", 1)])],
-        "C05" | "C06" => vec![l1("semaphore", 400_000, 12_000_000), l2("S-sem", 300_000, 8_000_000)],
+        "C05" | "C06" => vec![l1("semaphore", 400_000, 12_000_000), l2("S-sem", 300_000, 8_000_000), l3("T-sem", 60_000, 3_000_000)],
         "C07" => vec![l1o("semaphore", 300_000, 8_000_000, vec![("fair", 1)]), l2o("S-sem", 200_000, 5_000_000, vec![("fair", 1)])],
-        "C08" | "C09" | "C10" => vec![l1("mpmc", 400_000, 12_000_000), l2("S-chan", 200_000, 5_000_000), l2("S-chan-shared", 200_000, 5_000_000)],
+        "C08" | "C09" | "C10" => vec![
+            l1("mpmc", 400_000, 12_000_000),
+            l2("S-chan", 200_000, 5_000_000),
+            l2("S-chan-shared", 200_000, 5_000_000),
+            l3("T-chan", 40_000, 2_000_000),
+            l3("T-chan-shared", 40_000, 2_000_000),
+        ],
         "C11" => vec![
             l1("mpmc", 250_000, 6_000_000),
             l1("oneshot", 200_000, 5_000_000),
@@ -72,11 +86,14 @@ pub fn plan(prop: &str) -> Vec<PlanItem> {
             l2("S-chan-shared", 100_000, 3_000_000),
             l2("S-oneshot", 100_000, 3_000_000),
             l2("S-state", 100_000, 3_000_000),
+            l3("T-chan-shared", 30_000, 1_500_000),
+            l3("T-oneshot", 30_000, 1_500_000),
+            l3("T-state", 30_000, 1_500_000),
         ],
-        "C12" => vec![l1("oneshot", 400_000, 12_000_000), l2("S-oneshot", 300_000, 8_000_000)],
-        "C13" => vec![l1("state_broadcast", 400_000, 12_000_000), l2("S-state", 300_000, 8_000_000)],
-        "C14" => vec![l1("event", 400_000, 12_000_000), l2("S-event", 300_000, 8_000_000)],
-        "C15" => vec![l1("timer", 400_000, 12_000_000), l2("S-timer", 300_000, 8_000_000)],
+        "C12" => vec![l1("oneshot", 400_000, 12_000_000), l2("S-oneshot", 300_000, 8_000_000), l3("T-oneshot", 60_000, 3_000_000)],
+        "C13" => vec![l1("state_broadcast", 400_000, 12_000_000), l2("S-state", 300_000, 8_000_000), l3("T-state", 60_000, 3_000_000)],
+        "C14" => vec![l1("event", 400_000, 12_000_000), l2("S-event", 300_000, 8_000_000), l3("T-event", 60_000, 3_000_000)],
+        "C15" => vec![l1("timer", 400_000, 12_000_000), l2("S-timer", 300_000, 8_000_000), l3("T-timer", 40_000, 2_000_000)],
         _ => vec![],
     }
 }
@@ -230,6 +247,31 @@ pub fn run_worker(spec: &WorkSpec) -> Result<WorkOut, String> {
                 sim_time_ms: out.sim_time_ms,
             })
         }
+        #[cfg(feature = "l3")]
+        "L3" => {
+            let def = l3::scen_by_name(&spec.name).ok_or_else(|| format!("unknown scenario {}", spec.name))?;
+            l3::install_sched_hook();
+            let out = l3::run_batch(def, spec.seed, spec.first_run, spec.runs, &spec.gate, spec.threads, &spec.over, spec.stop_on_first, spec.max_found, spec.idx_dir.as_deref());
+            let (faults, probes) = stats_maps(&out.stats);
+            Ok(WorkOut {
+                runs: out.runs,
+                ops: out.steps,
+                faults,
+                probes,
+                nontrivial: out.nontrivial.len() as u64,
+                states: 0,
+                transitions: 0,
+                found: out
+                    .found
+                    .into_iter()
+                    .map(|f| FoundOut { run_index: f.run_index, cfg: f.cfg, ops: f.trace.draws.iter().map(|d| Op::new(0, 0, 0, *d)).collect(), tape: f.trace.decisions, fails: f.fails })
+                    .collect(),
+                notes: out.notes,
+                samples: out.samples,
+                log_hash_xor: 0,
+                sim_time_ms: 0,
+            })
+        }
         other => Err(format!("unknown layer {}", other)),
     }
 }
@@ -316,6 +358,13 @@ pub fn run_replay(rep: &Replay) -> Result<(Vec<Fail>, u64), String> {
             let def = l2::scen_by_name(&rep.world).ok_or_else(|| format!("unknown scenario {}", rep.world))?;
             let o = l2::run(def, &rep.config, l2::Chooser::replay(rep.tape.clone()));
             Ok((o.fails, o.log_hash))
+        }
+        #[cfg(feature = "l3")]
+        "L3" => {
+            let def = l3::scen_by_name(&rep.world).ok_or_else(|| format!("unknown scenario {}", rep.world))?;
+            l3::install_sched_hook();
+            let tr = l3::Trace { decisions: rep.tape.clone(), draws: rep.ops.iter().map(|o| o.c).collect() };
+            Ok(l3::replay(def, &rep.config, &tr))
         }
         other => Err(format!("unknown layer {}", other)),
     }
@@ -483,6 +532,33 @@ pub fn cmd_minimise_inproc(path: &str) -> i32 {
             out.tape = tape;
             out.message = f.msg.clone();
             out.event_log_hash = format!("{:016x}", o1.log_hash);
+        }
+        #[cfg(feature = "l3")]
+        "L3" => {
+            let def = match l3::scen_by_name(&rep.world) {
+                Some(d) => d,
+                None => return 2,
+            };
+            l3::install_sched_hook();
+            let tr = l3::Trace { decisions: rep.tape.clone(), draws: rep.ops.iter().map(|o| o.c).collect() };
+            let t = l3::minimise(def, &rep.config, &tr, &rep.property, &rep.oracle, 300);
+            let (f1, h1) = l3::replay(def, &rep.config, &t);
+            let (_, h2) = l3::replay(def, &rep.config, &t);
+            if h1 != h2 {
+                eprintln!("harness error: replay is not deterministic");
+                return 2;
+            }
+            let f = match f1.iter().find(|f| f.prop == rep.property && f.oracle == rep.oracle) {
+                Some(f) => f,
+                None => {
+                    eprintln!("harness error: minimised schedule lost the violation");
+                    return 2;
+                }
+            };
+            out.tape = t.decisions;
+            out.ops = t.draws.iter().map(|d| Op::new(0, 0, 0, *d)).collect();
+            out.message = f.msg.clone();
+            out.event_log_hash = format!("{:016x}", h1);
         }
         _ => return 2,
     }
@@ -938,7 +1014,7 @@ pub fn cmd_check(root: &Path, prop: &str, tier: &str, seed: u64, threads: usize)
         "coverage": {
             "evaluations": agg.evaluations,
             "distinct_nontrivial": agg.nontrivial,
-            "rule": "runs are drawn swarm-style from VERIF_SEED (one xoshiro stream per run index, per world/scenario); a run is non-trivial if at least one poll returned Pending and at least one fault kind fired; distinct = distinct hash of the run's operation-kind sequence (L1) / executor decision sequence (L2) among non-trivial runs, counted per world or scenario (maximum over its worker batches) and summed over worlds",
+            "rule": "runs are drawn swarm-style from VERIF_SEED (one xoshiro stream per run index, per world/scenario); a run is non-trivial if at least one poll returned Pending and at least one fault kind fired (L3: at least one preemption); distinct = distinct hash of the run's operation-kind sequence (L1) / executor decision sequence (L2) / thread-schedule decision sequence (L3) among non-trivial runs, counted per world or scenario (maximum over its worker batches) and summed over worlds",
             "samples": agg.samples,
             "states": agg.states,
             "transitions": agg.transitions,
@@ -951,7 +1027,7 @@ pub fn cmd_check(root: &Path, prop: &str, tier: &str, seed: u64, threads: usize)
             "other_oracle_notes": agg.notes,
             "components": {
                 "real": ["futures-intrusive (all primitives; local, parking_lot and shared flavours; the crate's TimerService is the L2 timer wheel)", "futures-core", "lock_api", "parking_lot"],
-                "stub": ["executor (simulator decides every poll, drop, kill, wake delivery)", "wakers (simulator-owned, logging)", "clock (SimClock behind the crate's Clock trait; MockClock in some configurations)"]
+                "stub": ["executor (simulator decides every poll, drop, kill, wake delivery)", "thread scheduler (shuttle runtime driven by the simulator's seeded Scheduler)", "internal lock in L3 (SimRawMutex behind lock_api::RawMutex)", "wakers (simulator-owned, logging)", "clock (SimClock behind the crate's Clock trait; MockClock in some configurations)"]
             },
             "known_findings_hit": known_hits,
         },
